@@ -43,6 +43,11 @@ def _cbh_post(result, vals, lookback_perc, height_perc):
     n = ln(vals)
     k = z3.ToInt(z3.ToReal(n) * z3.ToReal(lookback_perc) / 100)
     start = z3.If(k == 0, 0, z3.If(n - k > 0, n - k, 0))
+    if not (ctx.fn_stack and ctx.fn_stack[0] == 'ampycloud.utils.utils.calc_base_height'):
+        # modular use at a call site: what a caller may rely on -- a finite value between two values of the look-back tail
+        return {'finite': Not(_isnan(result)),
+                'inside_the_tail': Exists(0, n, lambda a: And(a >= start, _rv(vals[a]) <= _rv(result))),
+                'inside_the_tail_hi': Exists(0, n, lambda b: And(b >= start, _rv(result) <= _rv(vals[b])))}
     if len(calls) != 1:
         return {'one_percentile_call': False}
     arr, q, out, lo, hi = calls[0]
